@@ -60,6 +60,64 @@ class _Shim:
         self.parameters = tuple(params)
 
 
+
+class _QueryArgs:
+    """`instrument.Recorder` labels a reported density `rev` / `fwd` by the *order* of the two
+    `JointProposal.logpdf` calls of a step.  Here every logged query is re-labelled by its
+    *arguments*: `rev` = log q(x | x') (evaluated at the current point, given the proposed one),
+    `fwd` = log q(x' | x).  If the code ever passed the arguments the other way round the
+    protocol then carries the truth and the model (which wants rev before fwd and forms
+    rev - fwd) disagrees with the real acceptance ratio."""
+
+    def __init__(self, rec):
+        self.rec = rec
+        self.args = {}          # index in rec.log -> (xi, givenx)
+        self.relabelled = 0
+
+    def __enter__(self):
+        from epsie.proposals import base as pbase
+        self._pbase = pbase
+        self._saved = pbase.BaseProposal.__dict__['logpdf']
+        inner, me = self._saved, self
+
+        def logpdf(self_, xi, givenx):
+            n0 = len(me.rec.log)
+            v = inner(self_, xi, givenx)
+            log = me.rec.log
+            if len(log) > n0 and log[-1][0] == 'Q' and log[-1][1] is self_:
+                me.args[len(log) - 1] = (dict(xi), dict(givenx))
+            return v
+        pbase.BaseProposal.logpdf = logpdf
+        return self
+
+    def __exit__(self, *exc):
+        self._pbase.BaseProposal.logpdf = self._saved
+        return False
+
+    def step(self, chain):
+        cur = dict(chain.current_position)
+        n0 = len(self.rec.log)
+        chain.step()
+        new = dict(chain.proposed_position)
+        log = self.rec.log
+        for i in range(n0, len(log)):
+            if log[i][0] != 'Q' or i not in self.args:
+                continue
+            xi, givenx = self.args[i]
+            pr = log[i][1]
+
+            def same(a, b):
+                return all(float(a[p]) == float(b[p]) for p in pr.parameters)
+            is_rev = same(xi, cur) and same(givenx, new)
+            is_fwd = same(xi, new) and same(givenx, cur)
+            if is_rev == is_fwd:
+                continue            # x' = x on this block (or neither): the order label stands
+            want = 'rev' if is_rev else 'fwd'
+            if log[i][2] != want:
+                log[i] = (log[i][0], log[i][1], want, log[i][3])
+                self.relabelled += 1
+        self.args = {k: v for k, v in self.args.items() if k >= len(log)}
+
 # --------------------------------------------------------------------------
 # chain steps
 # --------------------------------------------------------------------------
@@ -212,13 +270,15 @@ def run_step_case(c):
             lines.append('op start')
             expect.append('ok start')
             chain.scratchlen = c.warmup + 1
-            for _ in range(c.warmup):
-                chain.step()
-            lines.extend(I.render_oracle(rec.take(), shim))
-            lines.append('op run %d' % c.warmup)
-            expect.append('ok run %d' % c.warmup)
-            state['final'] = True
-            chain.step()
+            with _QueryArgs(rec) as qa:
+                for _ in range(c.warmup):
+                    qa.step(chain)
+                lines.extend(I.render_oracle(rec.take(), shim))
+                lines.append('op run %d' % c.warmup)
+                expect.append('ok run %d' % c.warmup)
+                state['final'] = True
+                qa.step(chain)
+                relabelled = qa.relabelled
             ents = rec.take()
             lines.extend(I.render_oracle(ents, shim))
             lines.append('op run 1')
@@ -237,7 +297,7 @@ def run_step_case(c):
                     'symmetric': bool(chain.proposal_dist.symmetric),
                     'queries': sum(1 for e in ents if e[0] == 'Q'),
                     'jumped': sum(1 for e in ents if e[0] == 'J'),
-                    'nprops': len(chain.proposal_dist.proposals)}
+                    'nprops': len(chain.proposal_dist.proposals), 'relabelled': relabelled}
     return lines, expect, info
 
 
@@ -448,7 +508,7 @@ def step_suite(seed, tier):
     stats = {'cases': 0, 'runs': 0, 'forced': 0, 'sure': 0, 'draw_accept': 0, 'draw_reject': 0,
              'ties': 0, 'edge_below': 0, 'edge_above': 0, 'edge_top': 0, 'symmetric': 0,
              'nonsymmetric': 0, 'with_queries': 0, 'blobs': 0, 'beta0': 0, 'joint': 0,
-             'edge_outcome_unexpected': 0, 'families': {}, 'betas': {}}
+             'edge_outcome_unexpected': 0, 'queries_relabelled': 0, 'families': {}, 'betas': {}}
     samples = []
     for c in cases:
         try:
@@ -482,6 +542,7 @@ def step_suite(seed, tier):
                 stats['ties'] += 1
             stats['symmetric' if info['symmetric'] else 'nonsymmetric'] += 1
             stats['with_queries'] += int(info['queries'] > 0)
+            stats['queries_relabelled'] += info['relabelled']
             if intent in ('below', 'above', 'top'):
                 stats['edge_' + intent] += 1
                 want = intent != 'above'
